@@ -152,8 +152,13 @@ def folder_logic_case(rng):
     cur = []
     run_id = 0
     for _ in range(rng.randint(1, 5)):
-        k = rng.choice(["grow", "grow", "same", "newrun"])
-        if k == "grow":
+        k = rng.choice(["grow", "grow", "same", "newrun", "sameends"])
+        if k == "sameends" and len(cur) >= 3:
+            # another run whose first and last rows coincide with what is on disk, different in between, at least as long
+            run_id += 1
+            mid = [run_id * 1000 + 500 + j for j in range(len(cur) - 2)]
+            cur = [cur[0]] + mid + [cur[-1]] + [run_id * 1000 + 900 + j for j in range(rng.randint(0, 2))]
+        elif k == "grow" or k == "sameends":
             cur = cur + [run_id * 1000 + len(cur) + j for j in range(rng.randint(1, 3))]
         elif k == "newrun":
             run_id += 1
